@@ -81,6 +81,19 @@ def step (st : St) (ws : List String) : St × String :=
         | .missingProducer => (st, "err missing")
         | .reassign => (st, "err reassign")
         | .conflict => (st, "err conflict")
+      | "read" =>
+        -- OpenDB (with its record keeping), then everything the opened store sees: the keys of its table, prefix stripped
+        let (dbs, res) := openDB types r st.dbs req
+        let st := { st with dbs := dbs }
+        match res with
+        | .ok loc table _ =>
+          let vis : KV := (getKV st.kv loc).filterMap (fun p =>
+            if table.isPrefixOf p.1 then some (p.1.drop table.length, p.2) else none)
+          (st, fmtKV vis)
+        | .noRoute => (st, "loop")
+        | .missingProducer => (st, "err missing")
+        | .reassign => (st, "err reassign")
+        | .conflict => (st, "err conflict")
       | "dump" =>
         match routeOf r req with
         | none => (st, "loop")
